@@ -97,11 +97,11 @@ theorem norm_rule_local (ts : List Tok) :
     outside clsDelim (runRule ruleVec ts) = outside clsDelim ts ∧
     outside clsAbi (runRule ruleAbi ts) = outside clsAbi ts ∧
     outside clsVis (runRule ruleVis ts) = outside clsVis ts ∧
-    outside clsComma (whereSep false 0 ts) = outside clsComma ts ∧
+    outside clsComma (whereSep false 0 0 false ts) = outside clsComma ts ∧
     outside clsEmpty (runRule ruleEmpty ts) = outside clsEmpty ts ∧
     outside clsPipe (runRule rulePipe ts) = outside clsPipe ts ∧
     outside clsComma (closureSep 0 0 noTok ts) = outside clsComma ts ∧
-    outside clsSemi (runRule ruleSemi ts) = outside clsSemi ts ∧
+    outside clsSemi (semiSep [] false 1 noTok ts) = outside clsSemi ts ∧
     outside clsBlock (runRule ruleBlock ts) = outside clsBlock ts ∧
     outside clsComma (runRule ruleComma ts) = outside clsComma ts ∧
     outside clsDelim (runRule ruleParen ts) = outside clsDelim ts ∧
@@ -111,9 +111,9 @@ theorem norm_rule_local (ts : List Tok) :
     outside clsFis (runRule ruleFis ts) = outside clsFis ts ∧
     outside clsWild (wildCondense ts) = outside clsWild ts :=
   ⟨runRule_outside _ _ ruleVec_local ts, runRule_outside _ _ ruleAbi_local ts,
-   runRule_outside _ _ ruleVis_local ts, whereSep_local ts false 0,
+   runRule_outside _ _ ruleVis_local ts, whereSep_local ts false 0 0 false,
    runRule_outside _ _ ruleEmpty_local ts, runRule_outside _ _ rulePipe_local ts,
-   closureSep_local ts 0 0 noTok, runRule_outside _ _ ruleSemi_local ts,
+   closureSep_local ts 0 0 noTok, semiSep_local ts [] false 1 noTok,
    runRule_outside _ _ ruleBlock_local ts, runRule_outside _ _ ruleComma_local ts,
    runRule_outside _ _ ruleParen_local ts, runRule_outside _ _ ruleLitParen_local ts,
    runRule_outside _ _ ruleClosureParen_local ts, runRule_outside _ _ ruleTry_local ts,
@@ -230,20 +230,20 @@ literal (Lemmas/TokEquiv.lean). -/
 /-- tests/source/structs.rs:274 `pub(in self) struct Foo{}`, tests/source/closure.rs:21
 `|trivial| { closure() }`, tests/source/match.rs:488 (leading `|`), tests/source/issue-945.rs:3
 (`default unsafe extern "C" fn`), with a trailing comma, an empty `where`, an empty generic list, a
-redundant nested parenthesis and a `;` after the block added -/
-def exIn : List Tok := lexEx (chars% "pub ( in self ) struct Foo { } impl Baz { default unsafe extern \"C\" fn foo < 'a , > ( & 'a mut self , ) -> u32 where { let unblock_me = | trivial | { closure ( ) } ; match x { Foo :: A => println ! ( \"No\" ) , | Foo :: D => { g :: < > ( ( 2.0 ) , ) } , } ; } }")
+redundant nested parenthesis and a `return` arm in a block added -/
+def exIn : List Tok := lexEx (chars% "pub ( in self ) struct Foo { } impl Baz { default unsafe extern \"C\" fn foo < 'a , > ( & 'a mut self , ) -> u32 where { let unblock_me = | trivial | { closure ( ) } ; match x { Foo :: A => println ! ( \"No\" ) , | Foo :: D => { return g :: < > ( ( 2.0 ) , ) ; } , } } }")
 
 /-- what rustfmt prints for it (token-wise) -/
-def exOut : List Tok := lexEx (chars% "pub ( self ) struct Foo { } impl Baz { default unsafe extern \"C\" fn foo < 'a > ( & 'a mut self ) -> u32 { let unblock_me = | trivial | closure ( ) ; match x { Foo :: A => println ! ( \"No\" ) , Foo :: D => g ( 2.0 ) , } } }")
+def exOut : List Tok := lexEx (chars% "pub ( self ) struct Foo { } impl Baz { default unsafe extern \"C\" fn foo < 'a > ( & 'a mut self ) -> u32 { let unblock_me = | trivial | closure ( ) ; match x { Foo :: A => println ! ( \"No\" ) , Foo :: D => return g ( 2.0 ) , } } }")
 
 /-- the same with the `mut` of the receiver dropped -/
-def exBadMut : List Tok := lexEx (chars% "pub ( self ) struct Foo { } impl Baz { default unsafe extern \"C\" fn foo < 'a > ( & 'a self ) -> u32 { let unblock_me = | trivial | closure ( ) ; match x { Foo :: A => println ! ( \"No\" ) , Foo :: D => g ( 2.0 ) , } } }")
+def exBadMut : List Tok := lexEx (chars% "pub ( self ) struct Foo { } impl Baz { default unsafe extern \"C\" fn foo < 'a > ( & 'a self ) -> u32 { let unblock_me = | trivial | closure ( ) ; match x { Foo :: A => println ! ( \"No\" ) , Foo :: D => return g ( 2.0 ) , } } }")
 
 /-- the same with the modifier `default` dropped -/
-def exBadDefault : List Tok := lexEx (chars% "pub ( self ) struct Foo { } impl Baz { unsafe extern \"C\" fn foo < 'a > ( & 'a mut self ) -> u32 { let unblock_me = | trivial | closure ( ) ; match x { Foo :: A => println ! ( \"No\" ) , Foo :: D => g ( 2.0 ) , } } }")
+def exBadDefault : List Tok := lexEx (chars% "pub ( self ) struct Foo { } impl Baz { unsafe extern \"C\" fn foo < 'a > ( & 'a mut self ) -> u32 { let unblock_me = | trivial | closure ( ) ; match x { Foo :: A => println ! ( \"No\" ) , Foo :: D => return g ( 2.0 ) , } } }")
 
 /-- the same with the lifetime altered -/
-def exBadLt : List Tok := lexEx (chars% "pub ( self ) struct Foo { } impl Baz { default unsafe extern \"C\" fn foo < 'a > ( & 'b mut self ) -> u32 { let unblock_me = | trivial | closure ( ) ; match x { Foo :: A => println ! ( \"No\" ) , Foo :: D => g ( 2.0 ) , } } }")
+def exBadLt : List Tok := lexEx (chars% "pub ( self ) struct Foo { } impl Baz { default unsafe extern \"C\" fn foo < 'a > ( & 'b mut self ) -> u32 { let unblock_me = | trivial | closure ( ) ; match x { Foo :: A => println ! ( \"No\" ) , Foo :: D => return g ( 2.0 ) , } } }")
 
 /-- the hypotheses of `equiv_sound` hold of a non-trivial accepted pair -/
 example : equiv {} exIn exOut = true ∧ NoR exIn ∧ NoR exOut ∧ exIn ≠ exOut ∧
@@ -251,7 +251,7 @@ example : equiv {} exIn exOut = true ∧ NoR exIn ∧ NoR exOut ∧ exIn ≠ exO
 
 /-- hence equal certificates (also visible by evaluation) -/
 example : hardSeq {} exIn = hardSeq {} exOut := by decide +kernel
-example : (hardSeq {} exIn).length = 36 := by decide +kernel
+example : (hardSeq {} exIn).length = 37 := by decide +kernel
 
 /-- the three altered outputs are rejected -/
 example : equiv {} exIn exBadMut = false ∧ equiv {} exIn exBadDefault = false ∧ equiv {} exIn exBadLt = false := by
